@@ -241,7 +241,7 @@ def run(ctx):
     for fld, (cs, key) in seen.items():
         # from the limiter's false verdict no success return is reachable
         fe = false_edges(cs)
-        reach = cj.reachable_from(fe) if fe else set()
+        reach = (cj.reachable_tracking(fe) if getattr(cj, 'inlined', None) else cj.reachable_from(fe)) if fe else set()
         okr = bool(fe) and not (reach & set(succ))
         ctx.ob('DENY-IS-FINAL', 'deny:%s' % fld, okr, cs.where(), 'a false verdict of %s %s reach Ok(())' % (fld, 'cannot' if okr else 'CAN'))
     # every path to Ok passes global; V6 arm passes /64 and /48; V4 arm passes /24
